@@ -402,5 +402,5 @@ CONTROL = 'Package: gizmo\nVersion: 1.0-1\nArchitecture: all\nMaintainer: Jakub 
 MEMBER_DIRS = ['usr/share/locale/%(lang)s/LC_MESSAGES', 'usr/share/doc/gizmo', 'usr/share/gizmo/po', 'usr/lib/gizmo', 'opt/x y', 'usr/share/gizmo/%(lang)s']
 OTHER_MEMBERS = [('usr/share/doc/gizmo/README', b'hello\n'), ('usr/share/doc/gizmo/changelog.gz', b'\x1f\x8b\x08\x00junk'), ('usr/bin/gizmo', b'#!/bin/sh\n'),
                  ('usr/share/gizmo/notes.txt', b'msgid "x"\nmsgstr "y"\n'), ('usr/share/gizmo/data.po.bak', b'msgid "x"\nmsgstr "y"\n'),
-                 ('usr/share/gizmo/messages.PO', b'msgid "x"\nmsgstr "y"\n'), ('usr/share/gizmo/po', b'not a po file\n'), ('usr/share/gizmo/.mo', b'junk'),
+                 ('usr/share/gizmo/messages.PO', b'msgid "x"\nmsgstr "y"\n'), ('usr/share/doc/gizmo/po', b'not a po file\n'), ('usr/share/gizmo/.mo', b'junk'),
                  ('usr/share/gizmo/inner.deb', b'not a package\n'), ('usr/share/gizmo/inner.dsc', b'Format: 1.0\n'), ('usr/share/gizmo/empty', b'')]
